@@ -52,6 +52,27 @@ LOOK_ALIKE = [(1, 1, [[(0, 1, [[]])]]),            # a   mandatory, itself a var
               (1, 1, [[(0, 1, [[]])], [(1, 2, [[], []])]])]   # b / B: group members, both variation points
 
 
+def edit_in_place(mb: ModelBuilder, m: AObj) -> None:
+    """Edit a model in place the way the readers build it: one more member in the first group found, a new
+    mandatory child under the root (attached with add_relation), and a mandatory child under that one."""
+    stack = [m._f["root"]]
+    groups = []
+    while stack:
+        f = stack.pop(0)
+        for r in f._f["relations"]:
+            if len(r._f["children"]) > 1:
+                groups.append(r)
+            stack.extend(r._f["children"])
+    # a group that does not hang from the root, if there is one (the root gets a relation of its own below)
+    grp = next((g for g in groups if g._f["parent"] is not m._f["root"]), groups[0] if groups else None)
+    if grp is not None:
+        extra = mb.feature("Extra.member", parent=grp._f["parent"])
+        grp._f["children"].append(extra)
+    em = mb.feature("Extra.mandatory")
+    mb.relation(m._f["root"], [em], 1, 1)
+    mb.relation(em, [mb.feature("Extra.mandatory.child")], 1, 1)
+
+
 def tree_models(mb: ModelBuilder) -> dict[str, AObj]:
     ms = {k: mb.model(build_tree(mb, spec), []) for k, spec in TREES.items()}
     ms["look-alike-names"] = mb.model(build_tree(mb, LOOK_ALIKE, "root", True), [])
@@ -347,9 +368,17 @@ def variation_points_whole(pm: ProgramModel, ctx: Ctx, mb: ModelBuilder, fn: Any
     from ..roundtrip import features as all_features
     models = tree_models(mb)
     models["rich"] = rich_model(mb)
+    work = []
     for name, m in models.items():
+        work.append((name, m, False))
+        if name in ("bushy", "rich", "two-groups"):
+            work.append((name + ":edited-in-place", m, True))      # same object, edited after the first analysis
+    it_ = Interp(pm)
+    for name, m, edit in work:
+        if edit:
+            edit_in_place(mb, m)
         try:
-            got = Interp(pm).call(fn, [m])
+            got = it_.call(fn, [m])
         except AbsRaise as exc:
             got = ("raise", exc.what)
         want = {}
